@@ -128,6 +128,9 @@ pub struct Rewriter<'a> {
     pub world: bool,
     pub collect_type: Option<String>,
     pub drop_takes: bool,
+    /// R15: method name -> kinds ("poll" | "option") for successive occurrences (pre-order)
+    pub desugar: HashMap<String, Vec<String>>,
+    pub desugar_seen: HashMap<String, usize>,
 }
 
 impl<'a> Rewriter<'a> {
@@ -316,6 +319,44 @@ impl<'a> Rewriter<'a> {
     }
 }
 
+impl<'a> Rewriter<'a> {
+    /// R15: `Poll::map`, `Option::map`, `Option::inspect` with a closure argument become `match`es
+    /// (std's definitions of these combinators); the receiver kind comes from the unit's configuration.
+    fn r15_desugar(&mut self, e: &ExprMethodCall) -> Option<Expr> {
+        let name = e.method.to_string();
+        let c = single_closure_arg(e)?;
+        if c.inputs.len() != 1 {
+            return None;
+        }
+        let k = *self.desugar_seen.get(&name).unwrap_or(&0);
+        self.desugar_seen.insert(name.clone(), k + 1);
+        let kind = self.desugar.get(&name)?.get(k)?.clone();
+        let recv = &e.receiver;
+        let pat = strip_pat_type(&c.inputs[0]);
+        let body = closure_body_expr(c);
+        self.fired.push(format!("R15-{}-{}", name, kind));
+        match (name.as_str(), kind.as_str()) {
+            ("map", "poll") => Some(parse_quote! {
+                match #recv { Poll::Ready(#pat) => Poll::Ready(#body), Poll::Pending => Poll::Pending }
+            }),
+            ("map", "option") => Some(parse_quote! {
+                match #recv { Some(#pat) => Some(#body), None => None }
+            }),
+            ("inspect", "option") => {
+                // `|&x| B` on an Option<T: Copy>: bind x by value
+                let inner: Pat = match &pat {
+                    Pat::Reference(r) => (*r.pat).clone(),
+                    p => p.clone(),
+                };
+                Some(parse_quote! {
+                    match #recv { Some(vx_v) => { { let #inner = vx_v; #body }; Some(vx_v) } None => None }
+                })
+            }
+            _ => fail("config", format!("{}: R15 unknown desugar {} {}", self.name, name, kind)),
+        }
+    }
+}
+
 impl<'a> VisitMut for Rewriter<'a> {
     fn visit_expr_mut(&mut self, e: &mut Expr) {
         // pre-order: rewrite this node, then descend into the result
@@ -323,6 +364,7 @@ impl<'a> VisitMut for Rewriter<'a> {
             Expr::MethodCall(m) => {
                 let name = m.method.to_string();
                 match name.as_str() {
+                    "map" | "inspect" if self.desugar.contains_key(&name) => self.r15_desugar(m),
                     "for_each" => self.r1_for_each(m),
                     "try_for_each" => self.r1_try_for_each(m).map(|b| parse_quote! { (#b) }),
                     "fold" => self.r2_fold(m).map(|b| parse_quote! { (#b) }),
@@ -491,6 +533,21 @@ pub fn apply_all(block: &mut Block, item: &Value, fired: &mut Vec<String>, name:
         world: item.get("world").and_then(|x| x.as_bool()).unwrap_or(false),
         collect_type: item.get("collect_type").and_then(|x| x.as_str()).map(String::from),
         drop_takes: item.get("drop_takes").and_then(|x| x.as_bool()).unwrap_or(false),
+        desugar: item
+            .get("desugar")
+            .and_then(|x| x.as_object())
+            .map(|o| {
+                o.iter()
+                    .map(|(k, v)| {
+                        (
+                            k.clone(),
+                            v.as_array().map(|a| a.iter().filter_map(|x| x.as_str().map(String::from)).collect()).unwrap_or_default(),
+                        )
+                    })
+                    .collect()
+            })
+            .unwrap_or_default(),
+        desugar_seen: HashMap::new(),
     };
     rw.visit_block_mut(block);
 }
@@ -501,16 +558,21 @@ pub fn apply_all(block: &mut Block, item: &Value, fired: &mut Vec<String>, name:
 struct Marker {
     f: String,
     k: usize,
+    nk: usize,
     ck: usize,
     renames: HashMap<String, String>,
 }
 
 fn mac_stmt(name: &str, f: &str, k: Option<usize>) -> Stmt {
+    mac_stmt_s(name, f, k.map(|k| format!("c{}", k)))
+}
+
+fn mac_stmt_s(name: &str, f: &str, k: Option<String>) -> Stmt {
     let n = id(name);
     let f = id(f);
     match k {
         Some(k) => {
-            let lit = LitInt::new(&k.to_string(), Span::call_site());
+            let lit = id(&k);
             parse_quote! { #n!(#f, #lit); }
         }
         None => parse_quote! { #n!(#f); },
@@ -518,6 +580,28 @@ fn mac_stmt(name: &str, f: &str, k: Option<usize>) -> Stmt {
 }
 
 impl Marker {
+    /// loop id: `it<k>` for loops produced by R1/R2/R3 (k-th iterator loop), `n<k>` for native loops
+    fn loop_id(&mut self, cond: Option<&Expr>) -> String {
+        if let Some(c) = cond {
+            if let Expr::Let(l) = c {
+                if let Expr::MethodCall(m) = &*l.expr {
+                    if let Expr::Path(p) = &*m.receiver {
+                        if let Some(i) = p.path.get_ident() {
+                            if i.to_string().starts_with("vx_itR") {
+                                let k = self.k;
+                                self.k += 1;
+                                self.note_iter(c, k);
+                                return format!("it{}", k);
+                            }
+                        }
+                    }
+                }
+            }
+        }
+        let k = self.nk;
+        self.nk += 1;
+        format!("n{}", k)
+    }
     fn note_iter(&mut self, cond: &Expr, k: usize) {
         // `while let Some(..) = vx_itR<r>.next()`
         if let Expr::Let(l) = cond {
@@ -535,10 +619,10 @@ impl Marker {
             }
         }
     }
-    fn mark_body(&mut self, body: &mut Block, k: usize) {
+    fn mark_body(&mut self, body: &mut Block, k: &str) {
         unit_tail_to_stmt(&mut body.stmts);
-        body.stmts.insert(0, mac_stmt("vx_loop_head", &self.f, Some(k)));
-        body.stmts.push(mac_stmt("vx_loop_end", &self.f, Some(k)));
+        body.stmts.insert(0, mac_stmt_s("vx_loop_head", &self.f, Some(k.to_string())));
+        body.stmts.push(mac_stmt_s("vx_loop_end", &self.f, Some(k.to_string())));
     }
 }
 
@@ -551,23 +635,26 @@ impl VisitMut for Marker {
             if let Stmt::Expr(e, semi) = &mut st {
                 let is_loop = matches!(e, Expr::While(_) | Expr::Loop(_) | Expr::ForLoop(_));
                 if is_loop {
-                    let k = self.k;
-                    self.k += 1;
-                    match e {
+                    let k: String = match e {
                         Expr::While(w) => {
                             let c = (*w.cond).clone();
-                            self.note_iter(&c, k);
-                            self.mark_body(&mut w.body, k);
+                            self.loop_id(Some(&c))
+                        }
+                        _ => self.loop_id(None),
+                    };
+                    match e {
+                        Expr::While(w) => {
+                            self.mark_body(&mut w.body, &k);
                             // descend into the body (nested loops get later ordinals)
                             self.visit_expr_mut(&mut w.cond);
                             self.visit_block_mut_inner(&mut w.body);
                         }
                         Expr::Loop(l) => {
-                            self.mark_body(&mut l.body, k);
+                            self.mark_body(&mut l.body, &k);
                             self.visit_block_mut_inner(&mut l.body);
                         }
                         Expr::ForLoop(f) => {
-                            self.mark_body(&mut f.body, k);
+                            self.mark_body(&mut f.body, &k);
                             self.visit_expr_mut(&mut f.expr);
                             self.visit_block_mut_inner(&mut f.body);
                         }
@@ -576,7 +663,7 @@ impl VisitMut for Marker {
                     if semi.is_none() {
                         *semi = Some(Default::default());
                     }
-                    after = Some(mac_stmt("vx_after_loop", &self.f, Some(k)));
+                    after = Some(mac_stmt_s("vx_after_loop", &self.f, Some(k.clone())));
                     b.stmts.push(st);
                     b.stmts.push(after.take().unwrap());
                     continue;
@@ -636,7 +723,7 @@ pub fn rename_raw_file(f: &mut File) {
 }
 
 pub fn mark(block: &mut Block, fn_name: &str) {
-    let mut m = Marker { f: fn_name.to_string(), k: 0, ck: 0, renames: HashMap::new() };
+    let mut m = Marker { f: fn_name.to_string(), k: 0, nk: 0, ck: 0, renames: HashMap::new() };
     m.visit_block_mut(block);
     Renamer(&m.renames).visit_block_mut(block);
     // fn head / end markers
